@@ -9,5 +9,8 @@ CONSTANTS
   Offs <- OffsT
   Needles <- NeedlesT
   Fns <- FnsAll
+  Spell <- SpellT
 INVARIANT Laws
+INVARIANT NumeralsDenote
+INVARIANT SpellingDoesNotMatter
 CHECK_DEADLOCK FALSE
